@@ -2,7 +2,7 @@
    server holds are the transpose of the per-message sequence names of the world model; after the
    server has written `.mh_sequences`, an MH tool reads, for every message the server knows, exactly
    the sequence names the world model gives that message (C13: "MH tools see IMAP flag changes"). *)
-From Asimap Require Import Base.Res Model.Mbox Model.MhSeq Proofs.MhSeqP.
+From Asimap Require Import Base.Res Spec.SetSem Model.Mbox Model.MhSeq Proofs.MhSeqP Proofs.MboxKeys.
 From Coq Require Import Lia ZArith List Bool String Sorting.Sorted.
 Open Scope Z_scope.
 
@@ -69,4 +69,16 @@ Proof.
     inversion Hs as [|? ? Hs' Ha]; subst. constructor; [|apply IH; exact Hs'].
     intros Hin. rewrite Forall_forall in Ha. specialize (Ha a Hin). lia.
   - apply highest_is_max; [exact Hs|exact Hp|apply in_map; exact Hm].
+Qed.
+
+(* ... and in every reachable world the hypotheses hold (Proofs/MboxKeys.v), so the statement is about
+   every mailbox after any history of commands, deliveries, packs and restarts *)
+Theorem reachable_mh_tool_reads_world_flags ps pn pd ops n b names forget folder name m :
+  get_box (fst (run (init_world ps pn pd) ops)) n = Some b ->
+  In m (b_msgs b) -> In name names ->
+  (In (m_key m) (seq_of (written (map m_key (b_msgs b)) (seqs_of_msgs names (b_msgs b)) forget folder) name)
+   <-> has_seq name m = true).
+Proof.
+  intros H Hm Hn. destruct (reachable_keys_ascending ps pn pd ops n b H) as [Hs Hp].
+  apply mh_tool_reads_world_flags; assumption.
 Qed.
